@@ -444,7 +444,10 @@ pub fn gen(tier: &str, rng: &mut Rng, out: &mut Vec<String>) {
         let mg = hex::encode(magic);
         let texts: Vec<String> = {
             let mut v = Vec::new();
-            for len in [0usize, 1, 2, 31, 32, 33, 34, 63, 64, 65, 255, 256, 257, 258, 300, 1000] {
+            // boundary lengths, plus every integer literal of the message sources (and its neighbours) up to 4096
+            let mut lens: Vec<usize> = vec![0usize, 1, 2, 31, 32, 33, 34, 63, 64, 65, 255, 256, 257, 258, 300, 1000];
+            for v in crate::harvest::ints(&["messages/version.rs", "messages/reject.rs", "messages/protoconf.rs", "messages/createstrm.rs", "messages/message.rs", "util/serdes.rs"], 4096) { if !lens.contains(&(v as usize)) { lens.push(v as usize); } }
+            for len in lens {
                 for (ci, ch) in ['\u{e9}', '\u{20ac}', '\u{1f600}'].iter().enumerate() {
                     for lead in 0..4usize {
                         if !thorough && (len + ci + lead) % 3 != 0 { continue; }
